@@ -148,6 +148,13 @@ func runJobs(c *vx.Ctx, jobs []vx.Job, st *exploreStats, props []string, each fu
 			for n, dr := range drs {
 				c.AddCounter("determinism_replays", 1)
 				if dr.Key != rs[dupIdx[n]].Key || dr.Outcome != rs[dupIdx[n]].Outcome {
+					if dup[n].Exec == "net" {
+						// Three engines talk to each other inside one bubble: which of several ready select cases a kernel
+						// takes is not owned by the harness (DESIGN.md C03). Both runs are real behaviours and both were
+						// checked by the agreement oracle; the count is reported.
+						c.AddCounter("nondeterministic_executions", 1)
+						continue
+					}
 					c.HarnessError(fmt.Sprintf("nondeterministic execution: %v %v gave two different final states", dup[n].Hist, dup[n].Args))
 				}
 			}
@@ -534,6 +541,23 @@ func exploreNet(c *vx.Ctx, heights int, maxDev int, seeds [][]string) {
 		js = append(js, vx.Job{Exec: "net", Hist: seed, Args: args()})
 		ok := runJobs(c, js, st, []string{"C03"}, each)
 		c.Extra[fmt.Sprintf("seed_%d", si)] = map[string]any{"prefix": seed, "executions": len(js), "completed": ok}
+	}
+	// Scripted adversary (split view: the victim never gets the honest proposal, see net.go) alone and with every
+	// single deviation on top of it.
+	{
+		advArgs := func() map[string]string {
+			m := args()
+			m["adversary"] = "missing-proposal"
+			return m
+		}
+		js := []vx.Job{{Exec: "net", Args: advArgs()}}
+		for s := 0; s <= 40; s++ {
+			for _, op := range full {
+				js = append(js, vx.Job{Exec: "net", Hist: []string{fmt.Sprintf("%d:%s", s, op)}, Args: advArgs()})
+			}
+		}
+		ok := runJobs(c, js, st, []string{"C03"}, each)
+		c.Extra["scripted_adversary_missing_proposal"] = map[string]any{"executions": len(js), "completed": ok}
 	}
 	if completed == 1 && maxDev >= 2 {
 		core := netOps("core")
